@@ -76,7 +76,7 @@ def r05_1(ctx: Ctx):
     ctx.floor(rid, 'regular evaluations on paths of the iteration driver', n, 1)
     # construction of the items themselves: R02.1 (seed) and R02.8 (new item)
     from . import c02
-    c02.r02_1(ctx)
+    c02.r02_1(ctx, coordinate_fixed=False)
     c02.r02_8_selection(ctx)
     # the evaluation routine does not touch the point before calling the objective
     tw = roles.task_wrapper
